@@ -56,7 +56,7 @@ CLAIMS = {
         "interval and EVERY script of deliveries, late hand-backs, cancellations, GVT announcements and the lazy fossil collections they trigger, the worker state is related to a reachable abstract state "
         "(same grouped histories, the groups released by fossil collection kept as ghosts below the GVT; pool = pending non-notice messages, cancelled identities = flag words 1/3), so what an LP has "
         "processed (released prefix ++ retained history) is the sequential execution below every bound under which nothing is pending, and at "
-        "quiescence exactly its sequential dispatch sequence (C01_worker_at_quiescence_has_processed_the_sequential_sequence).",
+        "quiescence exactly its sequential dispatch sequence (C01_worker_at_quiescence_has_processed_the_sequential_sequence) and every LP's state is the sequential one (C01_worker_at_quiescence_lp_states_are_sequential).",
    note=TB + "SC atomics at model level; the refinement is proved for every script (GVT announcements and fossil collections included) of ONE worker thread hosting all LPs (arbitrary delivery orders): for the multi-thread code it rests on the abstract theorem (all schedules) plus differential runs.",
    tech="Coq proof (invariants over all schedules of an abstract Time Warp machine + uniqueness of closed sorted histories) + differential runs against the extracted sequential executor"),
  "C03": dict(cat="proof", ref="DESIGN.md §5 C03",
